@@ -505,7 +505,7 @@ class Operator:
             )
             with self.timer.getTimer(interactionMessage):
                 interactMethod = getattr(interface, interactMethodName)
-                halt = halt or interactMethod(*args)
+                halt = interactMethod(*args) or halt
 
             if self.cs["debugDB"]:
                 self._debugDB(interactionName, interface.name, statePointIndex)
